@@ -9,6 +9,8 @@ import (
 	"strings"
 
 	"github.com/fiorix/go-diameter/v4/diam"
+	"github.com/fiorix/go-diameter/v4/diam/avp"
+	"github.com/fiorix/go-diameter/v4/diam/datatype"
 	"github.com/fiorix/go-diameter/v4/diam/dict"
 	"verif/internal/atoms"
 	"verif/internal/refcodec"
@@ -23,7 +25,7 @@ import (
 func init() {
 	Registry["C06"] = &Check{
 		Scenarios: c06Scenarios,
-		Rule: "histories: a retained first message M1 (one per slice-backed representation: Address IPv4 / IPv6 / other family, undefined AVP, IPv4, IPv6, OctetString, UTF8String, a grouped AVP containing each, nested groups; and one AVP of every declared type carrying payloads of 15 unexpected lengths / shapes, i.e. the lenient decode paths) followed by every sequence of <=3 further reads drawn from {same size with other content, larger but pooled, larger than the 1 KiB pooled buffer} x {same reader, another reader}; the pool shim reuses buffers deterministically (LIFO), so nothing depends on sync.Pool's luck; the same with the exported tuning variable diam.MessageBufferLength raised to 4096 and retained payloads of 1000..3000 bytes. schedules: two connections served by the real reader loops, a handler that retains the first message of connection A, a concurrent writer; Pool.Get is an explored choice (any pooled buffer, or a fresh one); every schedule up to preemption bound 2 (thorough: 4 on all fifteen retained shapes). Oracle: Serialize() bytes and String() of M1 taken when the reader returned it equal those taken at quiescence. Plus: M1 is unmarshalled into a struct and two later messages of the same shape are unmarshalled into the SAME struct value (field shapes *diam.AVP, diam.AVP, []*diam.AVP, the datatype, a pointer to it; 8 data types).",
+		Rule: "a retained message followed by a second message (the same wire image, or one with member-less groups) that is then edited in every ordinary way (a member added to each of its groups at every depth, a top-level AVP added, header changed): the retained one must not change; histories: a retained first message M1 (one per slice-backed representation: Address IPv4 / IPv6 / other family, undefined AVP, IPv4, IPv6, OctetString, UTF8String, a grouped AVP containing each, nested groups; and one AVP of every declared type carrying payloads of 15 unexpected lengths / shapes, i.e. the lenient decode paths) followed by every sequence of <=3 further reads drawn from {same size with other content, larger but pooled, larger than the 1 KiB pooled buffer} x {same reader, another reader}; the pool shim reuses buffers deterministically (LIFO), so nothing depends on sync.Pool's luck; the same with the exported tuning variable diam.MessageBufferLength raised to 4096 and retained payloads of 1000..3000 bytes. schedules: two connections served by the real reader loops, a handler that retains the first message of connection A, a concurrent writer; Pool.Get is an explored choice (any pooled buffer, or a fresh one); every schedule up to preemption bound 2 (thorough: 4 on all fifteen retained shapes). Oracle: Serialize() bytes and String() of M1 taken when the reader returned it equal those taken at quiescence. Plus: M1 is unmarshalled into a struct and two later messages of the same shape are unmarshalled into the SAME struct value (field shapes *diam.AVP, diam.AVP, []*diam.AVP, the datatype, a pointer to it; 8 data types).",
 		Assume: []string{"data-race freedom between visible operations (audited separately with -race)", "sync.Pool is modelled as: Get returns any previously Put object or allocates"},
 		QuickBudget: 100, ThoroughBudget: 1500,
 	}
@@ -273,6 +275,7 @@ func c06Scenarios(tier string) []*Scenario {
 	}
 	out := []*Scenario{{Name: "histories", Seq: func(r *SeqResult) { c06Histories(r, tier == "thorough") }},
 		{Name: "histories/unmarshal-into-a-reused-struct", Seq: c06Unmarshal},
+		{Name: "histories/a-later-message-is-edited", Seq: c06EditLater},
 		{Name: "histories/MessageBufferLength=4096", Seq: c06BigBuffer}}
 	names, wires := c06Firsts()
 	for i, n := range names {
@@ -627,3 +630,83 @@ func c06Sched(name string, first []byte, bound int) *Scenario {
 }
 
 var _ = dict.Default
+
+// c06EditLater: the retained message is followed by a second message (same wire image, or one
+// with member-less groups) which the application then EDITS in every ordinary way - a member
+// added to each of its groups at every depth (member-less ones included), a top-level AVP added,
+// its header changed. Two decoded messages share nothing: the retained one must not change.
+func c06EditLater(r *SeqResult) {
+	names, wires := c06Firsts()
+	parsers := make([]*dict.Parser, len(names))
+	for i := range parsers {
+		parsers[i] = c06Dict.P
+	}
+	empty := func(code uint32) refcodec.Node { return refcodec.Node{Code: code, Flags: 0x40, Group: true} }
+	hdr := refcodec.Header{Version: 1, Flags: 0x80, Code: 257, App: 0, HbH: 1, E2E: 1}
+	for _, x := range []struct {
+		name  string
+		nodes []refcodec.Node
+	}{
+		{"empty-group", []refcodec.Node{ident(264, "h"), empty(279)}},
+		{"empty-group-in-group", []refcodec.Node{ident(264, "h"), {Code: 284, Flags: 0x40, Group: true, Children: []refcodec.Node{empty(279), ident(280, "p")}}}},
+		{"two-empty-groups", []refcodec.Node{empty(279), empty(284), {Code: 260, Flags: 0xC0, Vendor: 10415, Group: true}}},
+	} {
+		names = append(names, x.name)
+		wires = append(wires, refcodec.EncodeMessage(hdr, x.nodes))
+		parsers = append(parsers, dict.Default)
+	}
+	var edit func(avps []*diam.AVP, n *int)
+	edit = func(avps []*diam.AVP, n *int) {
+		for _, a := range avps {
+			if g, ok := a.Data.(*diam.GroupedAVP); ok {
+				edit(g.AVP, n)
+				g.AddAVP(diam.NewAVP(avp.ResultCode, avp.Mbit, 0, datatype.Unsigned32(5012)))
+				*n++
+			}
+		}
+	}
+	for i, name := range names {
+		for _, other := range []int{i, len(names) - 1, len(names) - 3} {
+			w, w2 := wires[i], wires[other]
+			var viol string
+			s := vs.Run(nil, false, 0, false, func() {
+				m1, err := diam.ReadMessage(bytes.NewReader(w), parsers[i])
+				if err != nil {
+					return
+				}
+				snap, e := c06Take(m1)
+				if e != "" {
+					viol = e
+					return
+				}
+				m2, err := diam.ReadMessage(bytes.NewReader(w2), parsers[other])
+				if err != nil {
+					return
+				}
+				groups := 0
+				edit(m2.AVP, &groups)
+				m2.NewAVP(avp.ResultCode, avp.Mbit, 0, datatype.Unsigned32(2001))
+				m2.Header.HopByHopID, m2.Header.CommandFlags = 0xdead, 0
+				_, _ = m2.Serialize()
+				now, e := c06Take(m1)
+				if e != "" {
+					viol = e
+					return
+				}
+				if !bytes.Equal(now.wire, snap.wire) || now.str != snap.str {
+					viol = fmt.Sprintf("the retained message changed when a message read after it (%s) was edited (%d groups got a member, one top-level AVP added, header changed): String() before %q, after %q", names[other], groups, clip(snap.str), clip(now.str))
+				}
+			})
+			s.Teardown()
+			r.Cases++
+			r.Distinct++
+			if viol != "" && r.Violation == "" {
+				r.Violation = fmt.Sprintf("retained message %q: %s", name, viol)
+				r.Case = map[string]interface{}{"first": name, "second": names[other]}
+			}
+		}
+	}
+	if r.Sample == "" {
+		r.Sample = "retain a message, read another one (the same image / one with member-less groups), edit the second in every ordinary way"
+	}
+}
